@@ -156,7 +156,10 @@ func run() error {
 		calls = append(calls, &task.Call{Task: "default"})
 	}
 
-	globals.Set("CLI_ARGS", ast.Var{Value: strings.Join(cliArgs, " ")})
+	// The arguments are data, not a template: Live keeps the variable
+	// resolution from running them through the template engine
+	cliArgsValue := strings.Join(cliArgs, " ")
+	globals.Set("CLI_ARGS", ast.Var{Value: cliArgsValue, Live: cliArgsValue})
 	globals.Set("CLI_FORCE", ast.Var{Value: flags.Force || flags.ForceAll})
 	globals.Set("CLI_SILENT", ast.Var{Value: flags.Silent})
 	globals.Set("CLI_VERBOSE", ast.Var{Value: flags.Verbose})
